@@ -204,7 +204,9 @@ def report(prop, args, results, known, seed, wall, all_ids):
         tail = '' if v.get('confirmed') else ' no-failing-input-found'
         vlines.append("VIOLATION property=%s replay=%s%s" % (prop, rp, tail))
 
-    if crashes:
+    if any(v.get('confirmed') for r, v in violations):
+        status = 1
+    elif crashes:
         status = 3
     elif vlines:
         status = 1
